@@ -79,8 +79,10 @@ M("unflatten-scalar", GEN, "                X_new[i] = X_flat[n]\n              
   ["C05"], ["state_layout"], "scalar state entries come back as length-1 arrays")
 M("euler-dt-returned", ITER, "    dxdt, dt = f(t, X_old, True)\n    return updateX(X_old, dxdt, dt), dt", "    dxdt, dt = f(t, X_old, True)\n    return updateX(X_old, dxdt, dt), dt*(1 + 1e-15)",
   ["C06:stages", "C05"], ["dt_returned", "end_time"], "Euler returns a step one ulp larger than the one it used")
-M("rk4-state-modified", ITER, "    k1 = dxdt\n    dxdtsum = k1\n", "    k1 = dxdt\n    dxdtsum = k1\n    X_old += 0*k1\n    X_old[0] = X_old[0] + 0.0\n    X_old *= 1.0\n    X_old[...] = X_old + 1e-300\n",
+M("rk4-state-modified", ITER, "    k1 = dxdt\n    X_k1 = updateX(X_old, k1, dt/2)\n", "    k1 = dxdt\n    X_k1 = updateX(X_old, k1, dt/2)\n    X_old += 0*k1\n    X_old[0] = X_old[0] + 0.0\n    X_old *= 1.0\n    X_old[...] = X_old + 1e-300\n",
   ["C06:stages"], ["state_modified_direct", "state_modified_solve"], "RK4 writes (a denormal increment) into the state vector it was given")
+M("rk4-stage-sum-alias", ITER, "    dxdtsum = k1 + 2*k2\n", "    dxdtsum = k1\n    dxdtsum += 2*k2\n",
+  ["C06:stages"], ["state_modified_direct"], "KF-C06-2 restored: the stage sum is accumulated into the first stage, which is the caller's state when f returns its argument")
 M("rk4-weights", ITER, "    return updateX(X_old, dxdtsum/6, dt), dt", "    return updateX(X_old, (dxdtsum + 1e-3*(k2 - k3))/6, dt), dt",
   ["C06:order"], ["order_below_nominal"], "RK4 combination perturbed by 1e-3 (k2-k3)")
 M("euler-time", ITER, "    dxdt, dt = f(t, X_old, True)\n    return updateX(X_old, dxdt, dt), dt", "    dxdt, dt = f(t, X_old, True)\n    dxdt = 0.5*(dxdt + f(t, X_old))\n    return updateX(X_old, dxdt, dt), dt",
